@@ -9,7 +9,7 @@ Prints a JSON summary and writes it to <seed_dir>/result.json."""
 import json, os, shutil, subprocess, sys, tempfile, time
 
 def sh(cmd, cwd=None, env=None, timeout=3600):
-    p = subprocess.run(cmd, cwd=cwd, env=env, shell=isinstance(cmd, str), capture_output=True, text=True, timeout=timeout)
+    p = subprocess.run(cmd, cwd=cwd, env=env, shell=isinstance(cmd, str), capture_output=True, text=True, errors="replace", timeout=timeout)
     return p.returncode, (p.stdout + p.stderr)
 
 def main():
